@@ -13,15 +13,29 @@ abbrev LObs := Int × Int × Props × (Nat → Nat → Cell)
 
 def LayerM.obs (l : LayerM) : LObs := (l.w, l.h, l.props, rowsGet l.lines)
 
+/-- the buffer besides size and layers; the font table is observed as the function slot → font -/
+structure XObs where
+  fonts : Nat → Option Nat
+  fontMode : Nat
+  palette : List Nat
+  paletteMode : Nat
+  iceMode : Nat
+  sauce : Option Nat
+
+def Extra.obs (x : Extra) : XObs := ⟨fmLookup x.fonts, x.fontMode, x.palette, x.paletteMode, x.iceMode, x.sauce⟩
+
 structure DObs where
   w : Int
   h : Int
   layers : List LObs
+  x : XObs
 
-def Doc.obs (d : Doc) : DObs := ⟨d.w, d.h, d.layers.map LayerM.obs⟩
+def Doc.obs (d : Doc) : DObs := ⟨d.w, d.h, d.layers.map LayerM.obs, d.x.obs⟩
 
-theorem DObs.ext' {a b : DObs} (hw : a.w = b.w) (hh : a.h = b.h) (hl : a.layers = b.layers) : a = b := by
+theorem DObs.ext' {a b : DObs} (hw : a.w = b.w) (hh : a.h = b.h) (hl : a.layers = b.layers) (hx : a.x = b.x) : a = b := by
   cases a; cases b; simp_all
+
+theorem obs_x {d e : Doc} (h : d.obs = e.obs) : d.x.obs = e.x.obs := congrArg DObs.x h
 
 theorem obs_w {d e : Doc} (h : d.obs = e.obs) : d.w = e.w := congrArg DObs.w h
 theorem obs_h {d e : Doc} (h : d.obs = e.obs) : d.h = e.h := congrArg DObs.h h
@@ -50,12 +64,12 @@ theorem obs_none {d e : Doc} (h : d.obs = e.obs) {i : Nat} (hl : d.layers[i]? = 
   | some l' => rw [he] at this; simp at this
 
 theorem obs_setLayer (d : Doc) (i : Nat) (l : LayerM) :
-    (d.setLayer i l).obs = ⟨d.w, d.h, (d.layers.map LayerM.obs).set i l.obs⟩ := by
+    (d.setLayer i l).obs = ⟨d.w, d.h, (d.layers.map LayerM.obs).set i l.obs, d.x.obs⟩ := by
   simp [Doc.setLayer, Doc.obs, List.map_set]
 
 theorem obs_setLayer_congr {d e : Doc} (h : d.obs = e.obs) (i : Nat) {l l' : LayerM} (hl : l.obs = l'.obs) :
     (d.setLayer i l).obs = (e.setLayer i l').obs := by
-  rw [obs_setLayer, obs_setLayer, obs_w h, obs_h h, obs_layers h, hl]
+  rw [obs_setLayer, obs_setLayer, obs_w h, obs_h h, obs_layers h, hl, obs_x h]
 
 /-! ## links -/
 
